@@ -344,6 +344,12 @@ impl<const KK: usize> Probe<KK> {
                     async move {
                         log::log(K::TimerFire { id });
                         log::log(K::Exec { id, actor_tag: tag });
+                        // every other job suspends: it belongs to the timer, so it is cancelled with the actor (and
+                        // on restart) like the delay itself; the second marker must never appear after that
+                        if id % 2 == 1 {
+                            rt::sleep(2).await;
+                            log::log(K::TimerFire { id });
+                        }
                     },
                     rt::dur(d),
                 )
